@@ -134,6 +134,17 @@ var depImpl = map[string]core.Adapter{
 		if err := f.UnmarshalControl(mc); err != nil || dumpDep(&f) != dumpDep(d) {
 			return "FAIL MarshalControl/UnmarshalControl round trip"
 		}
+		// a receiver that already holds a value (a struct decoded into twice, a loop
+		// variable) ends up with exactly what the field denotes
+		for _, prior := range []string{"stale-a, stale-b | stale-c [amd64] <x>", "", core.MustUnHex(a[0])} {
+			var g dependency.Dependency
+			if g.UnmarshalControl(prior) != nil {
+				continue
+			}
+			if err := g.UnmarshalControl(core.MustUnHex(a[0])); err != nil || dumpDep(&g) != dumpDep(d) {
+				return fmt.Sprintf("FAIL unmarshalling into a receiver that held %q gives %s, a fresh parse %s", prior, dumpDep(&g), dumpDep(d))
+			}
+		}
 		return "ok"
 	},
 	"archparse": func(a []string) string {
@@ -249,6 +260,20 @@ var archNames = []string{"amd64", "i386", "any", "all", "linux-any", "any-amd64"
 var profNames = []string{"stage1", "cross", "nocheck", "nodoc", "pkg.foo.bar"}
 var depOps = []string{">=", "<=", "<<", ">>", "="}
 
+// wideTok: a token over every printable ASCII byte the grammar does not reserve (the
+// dictionaries above only use the bytes real package lists use; '%', '\\', '"', '#', '~', ...
+// are legal token bytes too and must come back verbatim)
+func wideTok(r *core.Rand, n int, alsoAllowed string) string {
+	const reserved = "(),|:[]<>!${}="
+	var alpha []byte
+	for c := byte(33); c <= 126; c++ {
+		if !strings.ContainsRune(reserved, rune(c)) || strings.ContainsRune(alsoAllowed, rune(c)) {
+			alpha = append(alpha, c)
+		}
+	}
+	return r.Str("abcxyz0123456789", 1) + r.Str(string(alpha), n)
+}
+
 func genPoss(r *core.Rand) gPoss {
 	if r.Chance(1, 8) {
 		return gPoss{Substvar: true, Name: r.Pick([]string{"misc:Depends", "shlibs:Depends", "x", "python3:Depends"})}
@@ -259,25 +284,43 @@ func genPoss(r *core.Rand) gPoss {
 		// be the deb822 marker for an empty line)
 		p.Name = r.Str("abcxyz0123456789", 1) + r.Str("abcxyz0123456789+-.", r.Range(1, 11))
 	}
+	wide := r.Chance(1, 6)
+	if wide && r.Bool() {
+		p.Name = wideTok(r, r.Intn(8), "")
+	}
 	if r.Chance(1, 4) {
 		p.Qual = r.Pick([]string{"any", "native", "amd64", "all", "armhf", "linux-any"})
+		if wide && r.Bool() {
+			p.Qual = wideTok(r, r.Intn(6), "")
+		}
 	}
 	if r.Chance(1, 2) {
 		p.Op = r.Pick(depOps)
 		_, u, rv, hr := genWFVersion(r)
 		p.Num = renderWF(r.Pick([]string{"", "", "1", "0"}), u, rv, hr)
+		if wide && r.Bool() {
+			p.Num = wideTok(r, r.Intn(8), "(,|:[]<>!${}=")
+		}
 	}
 	if r.Chance(1, 3) {
 		n := r.Range(1, 3)
 		p.ArchNeg = r.Bool()
 		for i := 0; i < n; i++ {
-			p.Archs = append(p.Archs, r.Pick(archNames))
+			a := r.Pick(archNames)
+			if wide && r.Chance(1, 3) {
+				a = wideTok(r, r.Intn(6), "")
+			}
+			p.Archs = append(p.Archs, a)
 		}
 	}
 	for k := r.Intn(3); r.Chance(1, 3) && k > 0; k-- {
 		var set []gStage
 		for i := r.Range(1, 3); i > 0; i-- {
-			set = append(set, gStage{Not: r.Bool(), Name: r.Pick(profNames)})
+			nm := r.Pick(profNames)
+			if wide || r.Chance(1, 8) {
+				nm = wideTok(r, r.Intn(8), "")
+			}
+			set = append(set, gStage{Not: r.Bool(), Name: nm})
 		}
 		p.Stages = append(p.Stages, set)
 	}
@@ -613,6 +656,25 @@ func streamArchsem(g *core.G) {
 		s := renderDep(r, genDepAST(r), r.Intn(4))
 		g.Emit("possis", core.Hex(s), core.Hex(r.Pick(archNames)))
 	}
+	// the same list / the same parsed field asked repeatedly, through one Arch variable
+	for i := g.N(800, 30000); i > 0; i-- {
+		n := r.Range(1, 3)
+		args := []string{b01(r.Bool()), strconv.Itoa(n)}
+		for k := 0; k < n; k++ {
+			args = append(args, enc(archs[r.Intn(len(archs))])...)
+		}
+		for k := r.Range(2, 5); k > 0; k-- {
+			args = append(args, enc(archs[r.Intn(len(archs))])...)
+		}
+		g.Emit("law-archreuse", args...)
+	}
+	for i := g.N(300, 10000); i > 0; i-- {
+		args := []string{core.Hex(renderDep(r, genDepAST(r), r.Intn(4)))}
+		for k := r.Range(2, 4); k > 0; k-- {
+			args = append(args, core.Hex(r.Pick(archNames)))
+		}
+		g.Emit("law-possreuse", args...)
+	}
 	for i := g.N(3000, 100000); i > 0; i-- {
 		_, u, rv, hr := genWFVersion(r)
 		nstr := renderWF(r.Pick([]string{"", "", "1"}), u, rv, hr)
@@ -641,6 +703,50 @@ func streamArchsem(g *core.G) {
 }
 
 func init() {
+	// law (C06): an answer depends on the list and the architecture asked about, not on
+	// what the same objects were asked before
+	depImpl["law-archreuse"] = func(a []string) string {
+		n, _ := strconv.Atoi(a[1])
+		mk := func() *dependency.ArchSet {
+			set := &dependency.ArchSet{Not: a[0] == "1", Architectures: []dependency.Arch{}}
+			for i := 0; i < n; i++ {
+				set.Architectures = append(set.Architectures, argArch(a[2+3*i:5+3*i]))
+			}
+			return set
+		}
+		set := mk()
+		var o dependency.Arch
+		for q := 2 + 3*n; q+3 <= len(a); q += 3 {
+			o = argArch(a[q : q+3])
+			fresh := argArch(a[q : q+3])
+			got, want := set.Matches(&o), mk().Matches(&fresh)
+			if got != want {
+				return fmt.Sprintf("FAIL %v asked about %v answers %v after earlier questions, %v when asked first", *mk(), fresh, got, want)
+			}
+		}
+		return "ok"
+	}
+	depImpl["law-possreuse"] = func(a []string) string {
+		s := core.MustUnHex(a[0])
+		d, err := dependency.Parse(s)
+		if err != nil {
+			return "ok"
+		}
+		var x dependency.Arch
+		for _, h := range a[1:] {
+			y, err := dependency.ParseArch(core.MustUnHex(h))
+			if err != nil {
+				continue
+			}
+			x = *y
+			e, _ := dependency.Parse(s)
+			got, want := dumpPossList(d.GetPossibilities(x)), dumpPossList(e.GetPossibilities(*y))
+			if got != want {
+				return fmt.Sprintf("FAIL GetPossibilities(%v) on a field queried before gives %s, on a fresh parse %s", *y, got, want)
+			}
+		}
+		return "ok"
+	}
 	depImpl["law-depast"] = func(a []string) string {
 		got := parseDepDump(core.MustUnHex(a[0]))
 		want := "ok " + core.MustUnHex(a[1])
